@@ -10,6 +10,13 @@ package main
 // message once — what C16 proves about gluon; COPY and MOVE then work in ascending UID order, as mailbox.go does
 // since 071c9b5) and records the UIDs the command names.
 //
+// Protocol state: sessions open mailboxes with SELECT (read-write) and EXAMINE (read-only), SELECT / EXAMINE of names
+// that cannot be opened, COPY / MOVE into mailboxes that do not exist and STOREs naming \Recent fail in between; the
+// judge and the model keep the protocol state of every session themselves (Spec/MailboxRefProto.lean: the open mailbox
+// is in the mode of the command that opened it whatever failed since; read-only: STORE / EXPUNGE / MOVE refused, CLOSE
+// removes nothing; Model/SelState.lean: State.Select / State.Examine / the handlers' checks) — words `W:<i>` (whose
+// commands follow) and `O:<sel|exa>:<mb>:<ans>:<kept|dropped|none>`.
+//
 // At every CHECK (and at the end) a FRESH session EXAMINEs every mailbox and does
 // FETCH 1:* (UID FLAGS BODY.PEEK[]).  The whole run is then handed, as one line, to
 //
@@ -36,13 +43,16 @@ package main
 // Step lines (replay / corpus files, after the line `oracle c03content`):
 //
 //	opt echo=drop|flush            label <cause-label>        (directed case: label reported if it fails)
-//	S<i> LOGIN | S<i> SELECT <mb>
+//	S<i> LOGIN | S<i> SELECT <mb> | S<i> EXAMINE <mb>     any name: one that does not exist, the \Noselect parent `par`,
+//	                               `-` = the command without an argument (BAD); a refused SELECT / EXAMINE is followed by
+//	                               a probe (UID SEARCH ALL) that tells whether the server kept the old mailbox open
 //	S<i> APPEND <mb> <flags|-> <marker>
 //	S<i> STORE <sync|stale> <uid|seq> <set> <+FLAGS|-FLAGS|FLAGS>[.SILENT] <flags|->
 //	S<i> COPY|MOVE <sync|stale> <uid|seq> <set> <dst>
 //	S<i> EXPUNGE <sync|stale> | S<i> UIDEXPUNGE <sync|stale> <set> | S<i> CLOSE <sync|stale>
 //	BULK <mb> <n> <flags|->        n messages through the connector's MessagesCreated batch path
 //	CHECK
+//	                               STORE … CLOSE in a session without an open mailbox are sent as they are (refused)
 //	FAULT2 <session step>          the command runs with the transaction that queues its state updates failing
 //	                               (harness/interpose.go: error injected at the command's second Client.Write)
 
@@ -78,7 +88,9 @@ const c03ChunkLimit = 1000 // db.ChunkLimit; the facts translator regenerates th
 
 type c03Sess struct {
 	c        *Client
+	id       int
 	selected string
+	ro       bool // the mailbox was opened with EXAMINE
 }
 
 type c03Run struct {
@@ -119,6 +131,11 @@ func c03NewRun(echo string, fault *Fault) (*c03Run, error) {
 			sys.Close(true)
 			return nil, err
 		}
+	}
+	// `par` exists only as the \Noselect parent of par/kid: SELECT par is refused (never dumped, never holds a message)
+	if err := sys.Conn.MailboxCreated(imap.Mailbox{ID: imap.MailboxID("par-kid"), Name: []string{"par", "kid"}, Flags: imap.NewFlagSet(), PermanentFlags: imap.NewFlagSet(), Attributes: imap.NewFlagSet()}); err != nil {
+		sys.Close(true)
+		return nil, err
 	}
 	if err := sys.Barrier(); err != nil {
 		sys.Close(true)
@@ -292,6 +309,12 @@ func (o *c03Run) record(word, ans string) {
 		o.words = append(o.words, word+":"+ans)
 	}
 	o.answers = append(o.answers, ans)
+}
+
+// recordS: a command of session s (the judge and the model keep a protocol state per session)
+func (o *c03Run) recordS(s *c03Sess, word, ans string) {
+	o.words = append(o.words, fmt.Sprintf("W:%d", s.id))
+	o.record(word, ans)
 }
 
 // cmd sends the command of a step; inside a FAULT2 step the storage steps of exactly this command are recorded
@@ -491,7 +514,7 @@ func (o *c03Run) exec(step string) error {
 			if rep := c.Login("user"); rep.Status != "OK" {
 				return fmt.Errorf("login: %s %v", rep.Tagged, rep.Err)
 			}
-			o.sess[i] = &c03Sess{c: c}
+			o.sess[i] = &c03Sess{c: c, id: i}
 			return nil
 		}
 		s := o.sess[i]
@@ -510,19 +533,39 @@ func (o *c03Run) execSession(s *c03Sess, op string, a []string, step string) err
 	bad := fmt.Errorf("bad step %q", step)
 	o.stats["cmd."+op]++
 	switch op {
-	case "SELECT":
+	case "SELECT", "EXAMINE":
 		if len(a) != 1 {
 			return bad
 		}
-		rep := s.c.Cmd("SELECT " + a[0])
+		line := op + " " + a[0]
+		if a[0] == "-" {
+			line = op // without an argument: BAD
+		}
+		had := s.selected
+		rep := s.c.Cmd(line)
 		if rep.Err != nil {
 			return rep.Err
 		}
+		kind := map[string]string{"SELECT": "sel", "EXAMINE": "exa"}[op]
+		after := "none"
 		if rep.Status == "OK" {
-			s.selected = a[0]
+			s.selected, s.ro = a[0], op == "EXAMINE"
 		} else {
-			s.selected = ""
+			o.stats["failed-open"]++
+			if had != "" {
+				// what did the server do with the mailbox that was open?  (gluon keeps it, RFC 3501 6.3.1 drops it)
+				after = "kept"
+				if p := s.c.Cmd("UID SEARCH ALL"); p.Err != nil {
+					return p.Err
+				} else if p.Status != "OK" {
+					after = "dropped"
+					s.selected, s.ro = "", false
+				}
+				o.stats["failed-open-with-mailbox-open"]++
+			}
 		}
+		o.recordS(s, fmt.Sprintf("O:%s:%s", kind, a[0]), c03Status(rep))
+		o.words[len(o.words)-1] += ":" + after
 		return nil
 	case "APPEND":
 		if len(a) != 3 {
@@ -540,11 +583,14 @@ func (o *c03Run) execSession(s *c03Sess, op string, a []string, step string) err
 		o.record(fmt.Sprintf("A:%s:%s:%s", a[0], a[1], hex.EncodeToString(lit)), c03Status(rep))
 		return nil
 	}
-	if s.selected == "" {
-		return fmt.Errorf("step %q: no mailbox selected", step)
-	}
 	if len(a) < 1 || (a[0] != "sync" && a[0] != "stale") {
 		return bad
+	}
+	if s.selected == "" {
+		return o.execUnselected(s, op, a, step)
+	}
+	if s.ro {
+		o.stats["read-only-cmd"]++
 	}
 	if a[0] == "stale" {
 		o.stats["stale-view"]++
@@ -577,7 +623,7 @@ func (o *c03Run) execSession(s *c03Sess, op string, a []string, step string) err
 			return rep.Err
 		}
 		opw := map[byte]string{'+': "add", '-': "rem", 'F': "set"}[a[3][0]]
-		o.record(fmt.Sprintf("S:%s:%s:%s:%s", s.selected, opw, a[4], c03Ints(sel)), c03Status(rep))
+		o.recordS(s, fmt.Sprintf("S:%s:%s:%s:%s", s.selected, opw, a[4], c03Ints(sel)), c03Status(rep))
 		o.stats[fmt.Sprintf("size.%s", c03SizeClass(len(sel)))]++
 	case "COPY", "MOVE":
 		if len(a) != 4 {
@@ -594,7 +640,7 @@ func (o *c03Run) execSession(s *c03Sess, op string, a []string, step string) err
 		if rep.Err != nil {
 			return rep.Err
 		}
-		o.record(fmt.Sprintf("%s:%s:%s:%s", op[:1], s.selected, a[3], c03Ints(sel)), c03Status(rep))
+		o.recordS(s, fmt.Sprintf("%s:%s:%s:%s", op[:1], s.selected, a[3], c03Ints(sel)), c03Status(rep))
 		o.stats[fmt.Sprintf("size.%s", c03SizeClass(len(sel)))]++
 		if a[3] == s.selected {
 			o.stats["same-mailbox"]++
@@ -603,6 +649,9 @@ func (o *c03Run) execSession(s *c03Sess, op string, a []string, step string) err
 		// named: the messages of the view the command speaks about; sel: those of them the view shows as \Deleted
 		named, what := view, "all"
 		cmd := op
+		if op == "CLOSE" {
+			what = "close"
+		}
 		if op == "UIDEXPUNGE" {
 			if len(a) != 2 {
 				return bad
@@ -625,14 +674,62 @@ func (o *c03Run) execSession(s *c03Sess, op string, a []string, step string) err
 		if rep.Err != nil {
 			return rep.Err
 		}
-		o.record(fmt.Sprintf("X:%s:%s:%s:%s:%s", s.selected, a[0], what, c03Ints(named), c03Ints(sel)), c03Status(rep))
+		o.recordS(s, fmt.Sprintf("X:%s:%s:%s:%s:%s", s.selected, a[0], what, c03Ints(named), c03Ints(sel)), c03Status(rep))
 		o.stats[fmt.Sprintf("size.%s", c03SizeClass(len(sel)))]++
 		if op == "CLOSE" && rep.Status == "OK" {
-			s.selected = ""
+			s.selected, s.ro = "", false
 		}
 	default:
 		return bad
 	}
+	return nil
+}
+
+// a command of the selected state in a session that has no mailbox open: sent as it is, names nothing
+func (o *c03Run) execUnselected(s *c03Sess, op string, a []string, step string) error {
+	bad := fmt.Errorf("bad step %q", step)
+	o.stats["unselected-cmd"]++
+	pfx := func(kind string) string {
+		if kind == "uid" {
+			return "UID "
+		}
+		return ""
+	}
+	var line, word string
+	switch op {
+	case "STORE":
+		if len(a) != 5 {
+			return bad
+		}
+		flags := ""
+		if a[4] != "-" {
+			flags = strings.ReplaceAll(a[4], ",", " ")
+		}
+		line = fmt.Sprintf("%sSTORE %s %s (%s)", pfx(a[1]), a[2], a[3], flags)
+		word = fmt.Sprintf("S:-:%s:%s:-", map[byte]string{'+': "add", '-': "rem", 'F': "set"}[a[3][0]], a[4])
+	case "COPY", "MOVE":
+		if len(a) != 4 {
+			return bad
+		}
+		line = fmt.Sprintf("%s%s %s %s", pfx(a[1]), op, a[2], a[3])
+		word = fmt.Sprintf("%s:-:%s:-", op[:1], a[3])
+	case "EXPUNGE", "CLOSE":
+		line = op
+		word = fmt.Sprintf("X:-:%s:%s:-:-", a[0], map[string]string{"EXPUNGE": "all", "CLOSE": "close"}[op])
+	case "UIDEXPUNGE":
+		if len(a) != 2 {
+			return bad
+		}
+		line = "UID EXPUNGE " + a[1]
+		word = fmt.Sprintf("X:-:%s:set:-:-", a[0])
+	default:
+		return bad
+	}
+	rep := o.cmd(s, line)
+	if rep.Err != nil {
+		return rep.Err
+	}
+	o.recordS(s, word, c03Status(rep))
 	return nil
 }
 
@@ -746,6 +843,11 @@ func (o *c03Run) genStep(r *Rng, nsess int) string {
 	if o.profile == "cross" {
 		return o.genStepCross(r, nsess)
 	}
+	if len(o.queue) > 0 {
+		st := o.queue[0]
+		o.queue = o.queue[1:]
+		return st
+	}
 	for i := 0; i < nsess; i++ {
 		if o.sess[i] == nil {
 			return fmt.Sprintf("S%d LOGIN", i)
@@ -765,17 +867,39 @@ func (o *c03Run) genStep(r *Rng, nsess int) string {
 	i := r.Intn(nsess)
 	s := o.sess[i]
 	if s.selected == "" {
-		return fmt.Sprintf("S%d SELECT %s", i, Pick(r, c03Mailboxes))
+		switch {
+		case r.Chance(1, 10):
+			return o.genFailingOpen(r, i) // … with nothing open
+		case r.Chance(1, 10):
+			// a command of the selected state without an open mailbox (refused)
+			return fmt.Sprintf("S%d %s", i, Pick(r, []string{`STORE sync uid 1:* +FLAGS \Deleted`, "EXPUNGE sync", "CLOSE sync", "COPY sync seq 1 mb1", "MOVE sync uid 1:* mb2", "UIDEXPUNGE sync 1:*"}))
+		}
+		return o.genOpen(r, i)
+	}
+	if s.ro && r.Chance(1, 5) {
+		return o.genOpen(r, i) // a read-only session does not stay for ever
+	}
+	if !s.ro && r.Chance(1, 14) {
+		if q := o.genReadd(r, nsess, i); len(q) > 0 {
+			o.queue = q[1:]
+			return q[0]
+		}
 	}
 	mode := "sync"
 	c := r.Intn(100)
-	if len(o.peek(s, "sync")) == 0 && c >= 20 && c < 87 && r.Chance(3, 4) {
+	if len(o.peek(s, "sync")) == 0 && c >= 20 && c < 85 && r.Chance(3, 4) {
 		// nothing to work on here: add a message or look elsewhere
 		if r.Bool() {
 			c = 0
 		} else {
 			c = 90
 		}
+	}
+	dst := func() string {
+		if r.Chance(1, 10) {
+			return "nosuch" // refused (TRYCREATE)
+		}
+		return Pick(r, c03Mailboxes)
 	}
 	switch {
 	case c < 20:
@@ -790,34 +914,104 @@ func (o *c03Run) genStep(r *Rng, nsess int) string {
 		}
 		kind, set := c03GenSet(r, o.peek(s, mode))
 		op := Pick(r, []string{"+FLAGS", "-FLAGS", "FLAGS", "+FLAGS.SILENT", "-FLAGS.SILENT", "FLAGS.SILENT"})
-		return fmt.Sprintf("S%d STORE %s %s %s %s %s", i, mode, kind, set, op, o.genFlags(r, 3))
-	case c < 58:
+		fl := o.genFlags(r, 3)
+		if r.Chance(1, 14) { // refused: \Recent cannot be stored
+			if fl == "-" {
+				fl = `\Recent`
+			} else {
+				fl += `,\Recent`
+			}
+		}
+		return fmt.Sprintf("S%d STORE %s %s %s %s %s", i, mode, kind, set, op, fl)
+	case c < 57:
 		if o.echo != "flush" && r.Chance(1, 5) {
 			mode = "stale"
 		}
 		kind, set := c03GenSet(r, o.peek(s, mode))
-		return fmt.Sprintf("S%d COPY %s %s %s %s", i, mode, kind, set, Pick(r, c03Mailboxes))
-	case c < 70:
+		return fmt.Sprintf("S%d COPY %s %s %s %s", i, mode, kind, set, dst())
+	case c < 68:
 		if o.echo != "flush" && r.Chance(1, 5) {
 			mode = "stale"
 		}
 		kind, set := c03GenSet(r, o.peek(s, mode))
-		return fmt.Sprintf("S%d MOVE %s %s %s %s", i, mode, kind, set, Pick(r, c03Mailboxes))
-	case c < 78:
+		return fmt.Sprintf("S%d MOVE %s %s %s %s", i, mode, kind, set, dst())
+	case c < 76:
 		if o.echo != "flush" && r.Chance(1, 5) {
 			mode = "stale"
 		}
 		return fmt.Sprintf("S%d EXPUNGE %s", i, mode)
-	case c < 83:
+	case c < 80:
 		_, set := c03GenSet(r, o.peek(s, "sync"))
 		return fmt.Sprintf("S%d UIDEXPUNGE sync %s", i, set)
-	case c < 85:
+	case c < 83:
 		return fmt.Sprintf("S%d CLOSE sync", i)
-	case c < 92:
-		return fmt.Sprintf("S%d SELECT %s", i, Pick(r, c03Mailboxes))
+	case c < 88:
+		return o.genFailingOpen(r, i) // the open mailbox must stay open in the mode it was opened in
+	case c < 93:
+		return o.genOpen(r, i)
 	default:
 		return "CHECK"
 	}
+}
+
+// A message the views show as \Deleted is copied / moved onto its own mailbox — removed and added again under a new UID,
+// not \Deleted — and then a session that still shows the OLD instance (its removal is pending there: EXPUNGE responses
+// wait for a command that permits them) issues EXPUNGE / UID EXPUNGE / CLOSE: the new instance must stay (the index knows
+// a message by its id only; gluon 9c5a27f).  The expunging session is the one that copied, or another one in the mailbox.
+func (o *c03Run) genReadd(r *Rng, nsess, i int) []string {
+	s := o.sess[i]
+	if o.echo == "flush" || s == nil || s.selected == "" || s.ro {
+		return nil
+	}
+	view := o.peek(s, "sync")
+	if len(view) == 0 {
+		return nil
+	}
+	var q []string
+	j := i
+	if nsess > 1 && r.Bool() {
+		for j == i {
+			j = r.Intn(nsess)
+		}
+		if o.profile == "cross" {
+			if t := o.sess[j]; t == nil || t.selected != s.selected || t.ro {
+				j = i // the sessions of this profile stay where they are
+			}
+		} else if t := o.sess[j]; t == nil || t.selected != s.selected || t.ro {
+			q = append(q, fmt.Sprintf("S%d SELECT %s", j, s.selected))
+		}
+	}
+	kind, set := c03GenSet(r, view)
+	if r.Bool() {
+		kind, set = "uid", strconv.Itoa(view[r.Intn(len(view))])
+	}
+	q = append(q, fmt.Sprintf("S%d STORE sync %s %s %s %s", j, kind, set, Pick(r, []string{"+FLAGS", "+FLAGS.SILENT", "FLAGS"}), Pick(r, c03DeletedSpellings)))
+	q = append(q, fmt.Sprintf("S%d %s sync %s %s %s", i, Pick(r, []string{"COPY", "COPY", "MOVE"}), kind, set, s.selected))
+	switch r.Intn(3) {
+	case 0:
+		q = append(q, fmt.Sprintf("S%d EXPUNGE stale", j))
+	case 1:
+		q = append(q, fmt.Sprintf("S%d CLOSE stale", j))
+	default:
+		q = append(q, fmt.Sprintf("S%d UIDEXPUNGE stale 1:*", j))
+	}
+	o.stats["readd-then-expunge"]++
+	return append(q, "CHECK")
+}
+
+// SELECT (three times out of four) or EXAMINE of one of the mailboxes
+func (o *c03Run) genOpen(r *Rng, i int) string {
+	op := "SELECT"
+	if r.Chance(1, 4) {
+		op = "EXAMINE"
+	}
+	return fmt.Sprintf("S%d %s %s", i, op, Pick(r, c03Mailboxes))
+}
+
+// a SELECT / EXAMINE that is refused: a name that does not exist, a child that does not exist, the \Noselect parent
+// `par`, the command without its argument
+func (o *c03Run) genFailingOpen(r *Rng, i int) string {
+	return fmt.Sprintf("S%d %s %s", i, Pick(r, []string{"SELECT", "EXAMINE"}), Pick(r, []string{"nosuch", "nosuch", "INBOX/x", "par", "-"}))
 }
 
 // Profile `cross`: \Deleted is kept per mailbox while every other flag is kept per message, so a flag change made
@@ -890,6 +1084,12 @@ func (o *c03Run) genStepCross(r *Rng, nsess int) string {
 		}
 		return l
 	}
+	if r.Chance(1, 16) {
+		if q := o.genReadd(r, nsess, i); len(q) > 0 {
+			o.queue = q[1:]
+			return q[0]
+		}
+	}
 	c := r.Intn(100)
 	if len(o.peek(s, "sync")) == 0 && c < 80 {
 		c = 95 // nothing here any more: bring a message in
@@ -917,7 +1117,10 @@ func (o *c03Run) genStepCross(r *Rng, nsess int) string {
 	case c < 86:
 		kind, set := c03GenSet(r, o.peek(s, mode))
 		return fmt.Sprintf("S%d MOVE %s %s %s %s", i, mode, kind, set, Pick(r, c03Mailboxes))
-	case c < 92:
+	case c < 89:
+		// a refused SELECT / EXAMINE: the session stays in its mailbox, in the mode it opened it in
+		return o.genFailingOpen(r, i)
+	case c < 93:
 		return "CHECK"
 	default:
 		return fmt.Sprintf("S%d APPEND %s %s %s", i, Pick(r, c03Mailboxes), o.genFlags(r, 2), o.newMarker())
@@ -961,6 +1164,7 @@ type c03Outcome struct {
 	steps   []string
 	judge   string
 	model   string // "" = agrees
+	noModel bool   // the sequence was cut short: c03-model was not run
 	harness string // harness problem
 	stats   map[string]int
 	words   int
@@ -1032,6 +1236,16 @@ func c03RunSequenceP(echo, profile string, fixed []string, r *Rng, nsess, nsteps
 		out.harness = err.Error()
 		if p := o.sys.Panics.Take(); len(p) > 0 {
 			out.harness += " (server goroutine panicked: " + p[0] + ")"
+			return out
+		}
+		// a step that cannot be carried out (its set no longer fits the view, …) is often the consequence of an earlier
+		// command that did what it should not have done: the verdict on what was executed so far comes first
+		if len(o.answers) > 0 {
+			if ans, jerr := leanJudge([]string{"judge-c03-content " + strings.Join(c03Mailboxes, ",") + " " + strings.Join(o.words, " ")}); jerr == nil && len(ans) == 1 && strings.HasPrefix(ans[0], "violation") {
+				out.judge, out.harness = ans[0]+" (then: "+err.Error()+")", ""
+				out.noModel = true
+				out.stats, out.words = o.stats, len(o.answers)
+			}
 		}
 		return out
 	}
@@ -1115,13 +1329,15 @@ func c03FirstDiff(observed, model string) string {
 
 // localise: rerun the steps with a CHECK after every command and cut after the first failing checkpoint
 func c03Localise(echo string, steps []string) []string {
+	wordless := func(st string) bool { return strings.HasSuffix(st, "LOGIN") }
+	opens := func(st string) bool { return strings.Contains(st, " SELECT ") || strings.Contains(st, " EXAMINE ") }
 	var dense []string
 	for _, st := range steps {
 		if st == "CHECK" {
 			continue
 		}
 		dense = append(dense, st)
-		if !strings.HasSuffix(st, "LOGIN") && !strings.Contains(st, " SELECT ") {
+		if !wordless(st) && !opens(st) {
 			dense = append(dense, "CHECK")
 		}
 	}
@@ -1129,7 +1345,7 @@ func c03Localise(echo string, steps []string) []string {
 	if res.harness != "" || !strings.HasPrefix(res.judge, "violation") {
 		return steps
 	}
-	// the judge names the failing word (commands and checkpoints count); keep the steps up to it
+	// the judge names the failing word (commands, SELECT / EXAMINE and checkpoints count); keep the steps up to it
 	m := regexp.MustCompile(`step=(\d+)`).FindStringSubmatch(res.judge)
 	if m == nil {
 		return steps
@@ -1138,7 +1354,7 @@ func c03Localise(echo string, steps []string) []string {
 	var cut []string
 	words := 0
 	for _, st := range dense {
-		if !(strings.HasSuffix(st, "LOGIN") || strings.Contains(st, " SELECT ")) {
+		if !wordless(st) {
 			words++
 		}
 		if st != "CHECK" || words == bad {
@@ -1259,6 +1475,8 @@ func runC03ContentOracle(args []string) int {
 			agree := "the Lean model of the code (c03-model) predicts exactly what the server did"
 			if out.model != "" {
 				agree = "the Lean model of the code (c03-model) differs from the server, too: " + out.model
+			} else if out.noModel {
+				agree = "the sequence was cut short, the Lean model of the code (c03-model) was not compared"
 			}
 			report("judge", echo, label, steps, cause+" ("+tag+")", "reference judge (judge-c03-content): "+c03Truncate(out.judge, 400)+"\n# "+agree)
 			return
